@@ -6,10 +6,10 @@ use crate::gen::{self, RandCfg};
 use serde_json::json;
 
 pub fn prop(caps: bool) -> DiffRef {
-    DiffRef { caps, allow_cond: false, cond_focus: false, omit_empty_no: false, only_pos0: false, f1_undisputed: false }
+    DiffRef { caps, allow_cond: false, cond_focus: false, omit_empty_no: false, only_pos0: false, f1_undisputed: false, free_cond_refs: false }
 }
 pub fn prop_cond() -> DiffRef {
-    DiffRef { caps: true, allow_cond: true, cond_focus: true, omit_empty_no: false, only_pos0: false, f1_undisputed: false }
+    DiffRef { caps: true, allow_cond: true, cond_focus: true, omit_empty_no: false, only_pos0: false, f1_undisputed: false, free_cond_refs: false }
 }
 
 pub fn stage<P: PatProp>(ctx: &RunCtx, o: &mut Outcome, p: &P, name: &str, pats: &[crate::ast::Node], texts: &[String]) -> bool {
@@ -170,6 +170,37 @@ pub fn run_cond(ctx: &RunCtx) -> Outcome {
     let ptexts = gen::texts(&['a', 'b', 'c'], 4);
     if !stage(ctx, &mut o, &p, "conditional contexts x fillers depth 2", &prods, &ptexts) {
         return o;
+    }
+    // conditions on groups that are not open or do not exist: rejected at compile time today; if a
+    // pattern is accepted, the condition must be false
+    {
+        use crate::ast::Node::*;
+        fn bump(n: &crate::ast::Node, by: usize) -> crate::ast::Node {
+            let mut m = n.clone();
+            match &mut m {
+                GroupExists(g) => *g += by,
+                CondGroup(g, ..) => *g += by,
+                _ => {}
+            }
+            for c in m.children_mut() {
+                let b = bump(c, by);
+                *c = b;
+            }
+            m
+        }
+        let fp = DiffRef { free_cond_refs: true, ..prop_cond() };
+        let small: Vec<_> = space(&gen::cond_cfg(), 4, true).into_iter().filter(|x| x.has_cond()).collect();
+        let mut v = vec![];
+        for b in small.iter().chain(prods.iter().filter(|x| x.size() <= 9)) {
+            v.push(bump(b, 1));
+            v.push(bump(b, 2));
+        }
+        v.extend(space(&gen::cond_cfg(), 4, true).into_iter().filter(|x| x.has_cond() && !x.refs_valid(false)));
+        let v = gen::dedup_by_print(v);
+        o.stats.class_n("spelling:condition-on-missing-group", v.len() as u64);
+        if !stage(ctx, &mut o, &fp, "conditions on groups that are not open / do not exist", &v, &gen::texts(&['a', 'b', 'c'], 3)) {
+            return o;
+        }
     }
     // the "no-branch omitted" spelling: (?(c)yes) must mean (?(c)yes|) also when yes is an alternation
     {
